@@ -154,8 +154,6 @@ class SeenSet:
         if self.all_seen:
             return True
         if not assignment:
-            self.all_seen = True
-            self.seen.append(assignment)
             return False
         for constraint in self.seen:
             if all(assignment[k] == v if k in assignment else False for k, v in constraint.items()):
@@ -256,6 +254,17 @@ class IndexedCache:
         # if not seen:
         #     self.seen_set.add(assignment)
         return seen
+
+    def mark_covered(self, assignment: Dict) -> None:
+        """
+        Record that everything reachable from an assignment that binds none of the keys has been produced (and
+        inserted), such that later checks of any assignment are covered. Assignments that bind keys are covered by the
+        inserted entries themselves.
+
+        :param assignment: The assignment whose outputs have all been produced.
+        """
+        if not any(k in assignment for k in self.keys):
+            self.seen_set.add({})
 
     def __getitem__(self, key: Any):
         return self.flat_cache[key]
